@@ -216,7 +216,7 @@ impl Core {
                 1 => Some(Alt::Mem(std::sync::Arc::new(
                     (0..4).map(|_| std::sync::Arc::new(futures::lock::Mutex::new(random_access_memory::RandomAccessMemory::default()))).collect(),
                 ))),
-                2 => {
+                2 | 3 => {
                     let d = c.dir.join(format!("{}-{}", id, c.counter));
                     std::fs::create_dir_all(&d).unwrap();
                     Some(Alt::Disk(d))
@@ -236,9 +236,22 @@ impl Core {
         };
         let d = c.disk.clone();
         let alt = c.alt.clone();
+        let overwrite = CFG.with(|c| c.borrow().backend == 3);
         let r = catch_unwind(AssertUnwindSafe(|| {
             block_on(async {
                 let storage = match &alt {
+                    Some(Alt::Disk(dir)) if overwrite => {
+                        // the directory held another core before: creating with overwrite = true
+                        // must start from empty stores
+                        {
+                            let st = hypercore::Storage::new_disk(dir, false).await?;
+                            let mut old = HypercoreBuilder::new(st).key_pair(other_key_pair(9)).build().await?;
+                            let blocks: Vec<Vec<u8>> = (0..6u8).map(|i| vec![i; 3]).collect();
+                            old.append_batch(&blocks).await?;
+                            old.clear(1, 2).await?;
+                        }
+                        hypercore::Storage::new_disk(dir, true).await?
+                    }
                     Some(a) => alt_storage(a).await?,
                     None => d.storage().await,
                 };
